@@ -21,7 +21,18 @@ KINDS = [
 
 
 def make_array(recipe):
-    """Materialise an array from an explicit recipe (pure function of the recipe)."""
+    """Materialise an array from an explicit recipe (pure function of the recipe).
+    'cast' gives the caller's dtype (float32, or int64 for integer-valued data)."""
+    a = _make_array(recipe)
+    c = recipe.get("cast")
+    if c == "float32" and a.dtype.kind == "f":
+        return a.astype(np.float32)
+    if c == "int64" and a.dtype.kind == "f" and np.all(a == np.round(a)):
+        return a.astype(np.int64)
+    return a
+
+
+def _make_array(recipe):
     if "hex" in recipe or "val" in recipe:
         return hex_to_arr(recipe)
     kind = recipe["kind"]
